@@ -314,4 +314,201 @@ theorem xAlts_sound {R : Rules} {T : Table} {recur : Nat → RName → XSt → O
         refine ⟨φ2, e1.trans ?_, I2⟩
         exact e2
 
+/-! ### `expand_rule` -/
+
+theorem entryExit_cons_same (st : XSt) (r : RName) (e x n : Nat) :
+    ({ st with nstate := n, inst := (r, e, x) :: st.inst } : XSt).entryExit r = (e, x) := by
+  simp [XSt.entryExit]
+
+theorem entryExit_cons_other (st : XSt) {r s : RName} (e x n : Nat) (h : r ≠ s) :
+    ({ st with nstate := n, inst := (r, e, x) :: st.inst } : XSt).entryExit s = st.entryExit s := by
+  simp [XSt.entryExit, h]
+
+theorem SInv.drop {R : Rules} {st : XSt} {φ : Nat → Form} {f : Frame} {frames : List Frame}
+    (I : SInv R st φ (f :: frames)) : SInv R st φ frames :=
+  ⟨I.arcs, I.bnd, fun g hg => I.fr g (List.mem_cons_of_mem _ hg)⟩
+
+theorem xRule_sound (T : Table) : ∀ (fuel : Nat) (frames : List Frame) (ntail : Nat) (r : RName) (st : XSt)
+    (φ : Nat → Form) (κJ : Form),
+    SInv T.rules st φ frames → r ∉ frames.map (·.rule) →
+    Chain (⟨r, st.nstate, st.nstate + 1, κJ⟩ :: frames) ntail κJ →
+    match xRule T fuel (frames.map (·.rule)) ntail r st with
+    | none => True
+    | some st' => ∃ φ', Ext st φ st' φ' ∧ SInv T.rules st' φ' frames ∧
+        st'.entryExit r = (st.nstate, st.nstate + 1) ∧
+        st.nstate < st'.nstate ∧ st.nstate + 1 < st'.nstate ∧ φ' st.nstate = .ref r :: κJ ∧ φ' (st.nstate + 1) = κJ
+  | 0, _, _, _, _, _, _, _, _, _ => by simp [xRule]
+  | fuel + 1, frames, ntail, r, st, φ, κJ, I, hnot, hchain => by
+    simp only [xRule]
+    cases hf : T.find r with
+    | none => trivial
+    | some rl =>
+      simp only
+      -- the new instance
+      let cur : Frame := ⟨r, st.nstate, st.nstate + 1, κJ⟩
+      let st1 : XSt := { st with nstate := st.nstate + 2, inst := (r, st.nstate, st.nstate + 1) :: st.inst }
+      let φ1 : Nat → Form := setForm (setForm φ st.nstate (.ref r :: κJ)) (st.nstate + 1) κJ
+      have hφ_old : ∀ q, q < st.nstate → φ1 q = φ q := by
+        intro q hq
+        simp only [φ1]
+        rw [setForm_other _ _ (by omega), setForm_other _ _ (by omega)]
+      have hφe : φ1 st.nstate = .ref r :: κJ := by
+        simp only [φ1]
+        rw [setForm_other _ _ (by omega), setForm_same]
+      have hφx : φ1 (st.nstate + 1) = κJ := by
+        simp only [φ1]
+        rw [setForm_same]
+      have I1 : SInv T.rules st1 φ1 (cur :: frames) := by
+        refine ⟨?_, ?_, ?_⟩
+        · intro l hl
+          obtain ⟨b1, b2⟩ := I.bnd l hl
+          exact (I.arcs l hl).mono (hφ_old _ b1) (hφ_old _ b2)
+        · intro l hl
+          obtain ⟨b1, b2⟩ := I.bnd l hl
+          show l.src < st.nstate + 2 ∧ l.dst < st.nstate + 2
+          omega
+        · intro f hfm
+          rcases List.mem_cons.mp hfm with rfl | hfm'
+          · refine ⟨entryExit_cons_same st r _ _ _, ?_, ?_, hφe, hφx⟩
+            · show st.nstate < st.nstate + 2
+              omega
+            · show st.nstate + 1 < st.nstate + 2
+              omega
+          · obtain ⟨h1, h2, h3, h4, h5⟩ := I.fr f hfm'
+            have hne : r ≠ f.rule := by
+              intro heq
+              apply hnot
+              rw [heq]
+              exact List.mem_map.mpr ⟨f, hfm', rfl⟩
+            refine ⟨(entryExit_cons_other st _ _ _ hne).trans h1, ?_, ?_, ?_, ?_⟩
+            · show f.entry < st.nstate + 2
+              omega
+            · show f.exit < st.nstate + 2
+              omega
+            · rw [hφ_old _ h2]; exact h4
+            · rw [hφ_old _ h3]; exact h5
+      have e01 : Ext st φ st1 φ1 := ⟨by show st.nstate ≤ st.nstate + 2; omega, hφ_old⟩
+      -- the recursive calls satisfy the specification (induction on the fuel)
+      have Hrec : RecSpec T.rules T (fun nt s st' => xRule T fuel (r :: frames.map (·.rule)) nt s st')
+          (cur :: frames) ntail cur.κ := by
+        intro nt s st' φ' κ' I' hs _ hcond
+        have := xRule_sound T fuel (cur :: frames) nt s st' φ' κ' I' hs (by
+          intro i hi f hfi
+          cases i with
+          | zero =>
+            simp only [List.getElem?_cons_zero, Option.some.injEq] at hfi
+            subst hfi; rfl
+          | succ j =>
+            simp only [List.getElem?_cons_succ] at hfi
+            rcases hcond with h0 | ⟨h1, h2⟩
+            · omega
+            · rw [h2]
+              exact hchain j (by omega) f hfi)
+        have key : ∀ res : Option XSt,
+            (match res with
+              | none => True
+              | some st2 => ∃ φ2, Ext st' φ' st2 φ2 ∧ SInv T.rules st2 φ2 (cur :: frames) ∧
+                  st2.entryExit s = (st'.nstate, st'.nstate + 1) ∧ st'.nstate < st2.nstate ∧
+                  st'.nstate + 1 < st2.nstate ∧ φ2 st'.nstate = .ref s :: κ' ∧ φ2 (st'.nstate + 1) = κ') →
+            (match res with
+              | none => True
+              | some st2 => ∃ φ2 e x, Ext st' φ' st2 φ2 ∧ SInv T.rules st2 φ2 (cur :: frames) ∧
+                  st2.entryExit s = (e, x) ∧ e < st2.nstate ∧ x < st2.nstate ∧ φ2 e = .ref s :: κ' ∧ φ2 x = κ') := by
+          intro res hres
+          cases res with
+          | none => trivial
+          | some st2 =>
+            obtain ⟨φ2, a1, a2, a3, a4, a5, a6, a7⟩ := hres
+            exact ⟨φ2, _, _, a1, a2, a3, a4, a5, a6, a7⟩
+        exact key _ this
+      have hmemR : ∀ alt ∈ (normaliseRule rl).alts, atomsOf alt ∈ T.rules cur.rule := by
+        intro alt halt
+        have e1 : T.rules r = altsOf rl.alts := by
+          unfold Table.rules; rw [hf]; rfl
+        show atomsOf alt ∈ T.rules r
+        rw [e1, ← altsOf_normalise]
+        exact List.mem_map.mpr ⟨alt, halt, rfl⟩
+      have hA := xAlts_sound (R := T.rules) (T := T) (rest := frames) (cur := cur) (ntail := ntail)
+        Hrec hchain (normaliseRule rl).alts st1 φ1 I1 hmemR
+      show match xAlts T (fun nt s st' => xRule T fuel (r :: frames.map (·.rule)) nt s st')
+            (r :: frames.map (·.rule)) ntail st.nstate (st.nstate + 1) (normaliseRule rl).alts st1 with
+        | none => True
+        | some st' => ∃ φ', Ext st φ st' φ' ∧ SInv T.rules st' φ' frames ∧
+            st'.entryExit r = (st.nstate, st.nstate + 1) ∧
+            st.nstate < st'.nstate ∧ st.nstate + 1 < st'.nstate ∧ φ' st.nstate = .ref r :: κJ ∧
+            φ' (st.nstate + 1) = κJ
+      have hA' : match xAlts T (fun nt s st' => xRule T fuel (r :: frames.map (·.rule)) nt s st')
+            (r :: frames.map (·.rule)) ntail st.nstate (st.nstate + 1) (normaliseRule rl).alts st1 with
+        | none => True
+        | some st' => ∃ φ', Ext st1 φ1 st' φ' ∧ SInv T.rules st' φ' (cur :: frames) := hA
+      generalize xAlts T (fun nt s st' => xRule T fuel (r :: frames.map (·.rule)) nt s st')
+            (r :: frames.map (·.rule)) ntail st.nstate (st.nstate + 1) (normaliseRule rl).alts st1 = res at hA'
+      cases res with
+      | none => trivial
+      | some st' =>
+        obtain ⟨φ', e12, I2⟩ := hA'
+        obtain ⟨h1, h2, h3, h4, h5⟩ := I2.fr cur (by simp)
+        exact ⟨φ', e01.trans e12, I2.drop, h1, h2, h3, h4, h5⟩
+
+/-! ### the whole expansion -/
+
+theorem reach_run {R : Rules} {st : XSt} {φ : Nat → Form} (h : ∀ l ∈ st.links, ArcOK R φ l)
+    {p q : Nat} {ws : List Nat} (hr : Reach st.toNfa p ws q) :
+    ∀ ws', Run R (φ q) ws' → Run R (φ p) (ws ++ ws') := by
+  induction hr with
+  | refl => intro ws' hw; simpa using hw
+  | eps ha _ ih =>
+    intro ws' hw
+    simp only [XSt.toNfa, List.mem_map] at ha
+    obtain ⟨l, hl, heq⟩ := ha
+    have hok := h l hl
+    simp only [Prod.mk.injEq] at heq
+    obtain ⟨h1, h2, h3⟩ := heq
+    have := hok _ (by rw [h3]; exact ih ws' hw)
+    rw [h1, h2] at this
+    exact this
+  | sym ha _ ih =>
+    intro ws' hw
+    simp only [XSt.toNfa, List.mem_map] at ha
+    obtain ⟨l, hl, heq⟩ := ha
+    have hok := h l hl
+    simp only [Prod.mk.injEq] at heq
+    obtain ⟨h1, h2, h3⟩ := heq
+    have := hok _ (by rw [h3]; exact ih ws' hw)
+    rw [h1, h2] at this
+    exact this
+
+/-- every sentence accepted by the automaton the mirror of `expand_rule` builds is denoted by the
+top rule -/
+theorem expandTop_sound {T : Table} {top : RName} {st : XSt} (h : expandTop T top = some st)
+    (ws : List Nat) : Accepts st.toNfa ws → Der T.rules [.ref top] ws := by
+  unfold expandTop at h
+  split at h
+  · have I0 : SInv T.rules ({} : XSt) (fun _ => []) [] :=
+      { arcs := by intro l hl; cases hl
+        bnd := by intro l hl; cases hl
+        fr := by intro f hf; cases hf }
+    have := xRule_sound T (T.length + 1) [] 0 top {} (fun _ => []) [] I0 (by simp) (by
+      intro i hi f hfi
+      have : i = 0 := by omega
+      subst this
+      simp only [List.getElem?_cons_zero, Option.some.injEq] at hfi
+      subst hfi; rfl)
+    simp only [List.map_nil] at this
+    rw [h] at this
+    obtain ⟨φ', _, I, _, _, _, hφe, hφx⟩ := this
+    intro hacc
+    have hr := reach_run I.arcs hacc [] (by
+      show Run T.rules (φ' 1) []
+      have : φ' 1 = [] := hφx
+      rw [this]; exact .done)
+    have h0 : φ' 0 = [.ref top] := hφe
+    have : Run T.rules [.ref top] ws := by
+      have := hr
+      simp only [XSt.toNfa, List.append_nil] at this
+      rw [h0] at this
+      exact this
+    exact this.toDer
+  · cases h
+
 end SSVerif.Jsgf
